@@ -121,7 +121,7 @@ def project_run(r, named):
                 lab = -7
             name = row[col[f'{rl(l)}_name']]
             if named:
-                m = re.fullmatch(r'nm "(.*)", x', name, flags=re.S)
+                m = re.fullmatch(rf'nm{l} "(.*)", x', name, flags=re.S)
                 try:
                     nid = 1000 + nm.inv_node(l, m.group(1)) if m else -7
                 except KeyError:
